@@ -42,7 +42,7 @@ type StratOut struct {
 func stratText(c StratCase) string {
 	var sb strings.Builder
 	switch c.Style {
-	case "temporal":
+	case "temporal", "temporalagg":
 		sb.WriteString("Decl b(X) temporal.\n")
 		for _, n := range c.Nodes {
 			fmt.Fprintf(&sb, "Decl %s(X) temporal.\n", n)
@@ -55,7 +55,12 @@ func stratText(c StratCase) string {
 				case "pos":
 					fmt.Fprintf(&sb, "%s(X)@[S, E] :- b(X)@[S, E], %s(X)@[S, E].\n", n, m)
 				case "neg":
-					fmt.Fprintf(&sb, "%s(X)@[S, E] :- b(X)@[S, E], !%s(X)@[S, E].\n", n, m)
+					if c.Style == "temporalagg" {
+						// the negative edge is an aggregation over a temporally annotated mention
+						fmt.Fprintf(&sb, "%s(C)@[2024-01-02, 2024-01-03] :- %s(X)@[2024-01-01, 2024-01-02] |> do fn:group_by(), let C = fn:count().\n", n, m)
+					} else {
+						fmt.Fprintf(&sb, "%s(X)@[S, E] :- b(X)@[S, E], !%s(X)@[S, E].\n", n, m)
+					}
 				}
 			}
 		}
